@@ -28,6 +28,13 @@ pub const COLORISH: &[&str] = &["\u{1b}", "[", "m", "0", "1", ";", "3", "(", ")"
 pub const LOOKALIKE: &[&str] = &["\\", "d", "w", "s", "D", "u", "{", "}", "4", "1", "2", ",", "\\d", "a"];
 pub const CLASSY: &[&str] = &["a", "1", " ", "_", "\u{663}", "-", "\u{e9}", "\t", "B", "9"];
 
+/// units for repeat-count families: plain, metacharacters, class members, and multi-code-point
+/// graphemes whose first code point prints as an escape and whose tail prints raw
+pub const REPEAT_UNITS: &[&str] = &[
+    "a", "ab", "abc", ".", "a.", "\u{e9}x", "1", " b", ".\u{ff9e}", "+\u{1f3fd}", "7\u{ff9e}", "a\u{ff9e}", "\\", "\\d",
+    "\u{1f468}\u{1f3fd}", "(", "\u{1100}\u{1161}", "x\u{e33}", "\u{200a}", "#",
+];
+
 pub fn words(atoms: &[&str], maxlen: usize) -> Vec<String> {
     let mut out = vec![String::new()];
     let mut layer = vec![String::new()];
